@@ -1,5 +1,233 @@
-//! Replay of a recorded history file against the real engines (filled in by bin/check replays).
-pub fn run_file(path: &str) -> i32 {
-    eprintln!("history replay not available for {path}");
-    2
+//! History files: a configuration header line followed by one operation per line.
+//!
+//! ```text
+//! flavour=global policy=lru limit=2 ttl=none max_memory=none fw=none
+//! insert a 8
+//! get a
+//! age a 2
+//! ```
+//! `--history FILE` rebuilds the configuration, drives the REAL engine through the operations and
+//! runs the same step oracle as `--search` (see search.rs). Exit 0 = passes, 1 = violation, 2 = harness error.
+use crate::search;
+
+#[derive(Clone, Copy, PartialEq, Eq, Debug)]
+pub enum Flavour {
+    Global,
+    Thread,
+    Async,
+}
+
+impl Flavour {
+    pub const ALL: [Flavour; 3] = [Flavour::Global, Flavour::Thread, Flavour::Async];
+    pub fn name(self) -> &'static str {
+        match self {
+            Flavour::Global => "global",
+            Flavour::Thread => "thread",
+            Flavour::Async => "async",
+        }
+    }
+    pub fn parse(s: &str) -> Option<Flavour> {
+        Flavour::ALL.iter().copied().find(|f| f.name() == s)
+    }
+}
+
+#[derive(Clone, Copy, PartialEq, Eq, Debug)]
+pub enum Pol {
+    Fifo,
+    Lru,
+    Lfu,
+    Arc,
+    Random,
+    Tlru,
+}
+
+impl Pol {
+    pub const ALL: [Pol; 6] = [Pol::Fifo, Pol::Lru, Pol::Lfu, Pol::Arc, Pol::Random, Pol::Tlru];
+    pub fn name(self) -> &'static str {
+        match self {
+            Pol::Fifo => "fifo",
+            Pol::Lru => "lru",
+            Pol::Lfu => "lfu",
+            Pol::Arc => "arc",
+            Pol::Random => "random",
+            Pol::Tlru => "tlru",
+        }
+    }
+    pub fn parse(s: &str) -> Option<Pol> {
+        Pol::ALL.iter().copied().find(|p| p.name() == s)
+    }
+}
+
+#[derive(Clone, PartialEq, Debug)]
+pub struct Config {
+    pub flavour: Flavour,
+    pub policy: Pol,
+    pub limit: Option<usize>,
+    pub ttl: Option<u64>,
+    pub max_memory: Option<usize>,
+    pub fw: Option<f64>,
+    /// `--selftest-oracle`: the ORACLE (not the library) is deliberately wrong: it expects FIFO/LRU to
+    /// evict the back of the queue. Only used to demonstrate that a WITNESS is produced and replayable.
+    pub selftest: bool,
+}
+
+fn opt<T: std::fmt::Display>(v: &Option<T>) -> String {
+    match v {
+        Some(x) => x.to_string(),
+        None => "none".to_string(),
+    }
+}
+
+impl Config {
+    pub fn header(&self) -> String {
+        let mut s = format!(
+            "flavour={} policy={} limit={} ttl={} max_memory={} fw={}",
+            self.flavour.name(),
+            self.policy.name(),
+            opt(&self.limit),
+            opt(&self.ttl),
+            opt(&self.max_memory),
+            opt(&self.fw)
+        );
+        if self.selftest {
+            s.push_str(" selftest=1");
+        }
+        s
+    }
+}
+
+#[derive(Clone, PartialEq, Debug)]
+pub enum Op {
+    Get(String),
+    Insert(String, usize),
+    InsertM(String, usize),
+    Age(String, u64),
+}
+
+impl Op {
+    pub fn line(&self) -> String {
+        match self {
+            Op::Get(k) => format!("get {k}"),
+            Op::Insert(k, n) => format!("insert {k} {n}"),
+            Op::InsertM(k, n) => format!("insertm {k} {n}"),
+            Op::Age(k, s) => format!("age {k} {s}"),
+        }
+    }
+}
+
+pub fn format_history(cfg: &Config, ops: &[Op]) -> String {
+    let mut s = cfg.header();
+    s.push('\n');
+    for op in ops {
+        s.push_str(&op.line());
+        s.push('\n');
+    }
+    s
+}
+
+fn parse_opt<T: std::str::FromStr>(key: &str, v: &str) -> Result<Option<T>, String> {
+    if v == "none" {
+        Ok(None)
+    } else {
+        v.parse::<T>().map(Some).map_err(|_| format!("bad value for {key}: {v}"))
+    }
+}
+
+pub fn parse_history(text: &str) -> Result<(Config, Vec<Op>), String> {
+    let mut lines = text
+        .lines()
+        .map(|l| l.trim())
+        .filter(|l| !l.is_empty() && !l.starts_with('#'));
+    let header = lines.next().ok_or("empty history file")?;
+    let mut cfg = Config {
+        flavour: Flavour::Global,
+        policy: Pol::Lru,
+        limit: None,
+        ttl: None,
+        max_memory: None,
+        fw: None,
+        selftest: false,
+    };
+    let (mut seen_flavour, mut seen_policy) = (false, false);
+    for tok in header.split_whitespace() {
+        let (k, v) = tok.split_once('=').ok_or_else(|| format!("bad header token {tok}"))?;
+        match k {
+            "flavour" => {
+                cfg.flavour = Flavour::parse(v).ok_or_else(|| format!("unknown flavour {v}"))?;
+                seen_flavour = true;
+            }
+            "policy" => {
+                cfg.policy = Pol::parse(v).ok_or_else(|| format!("unknown policy {v}"))?;
+                seen_policy = true;
+            }
+            "limit" => cfg.limit = parse_opt("limit", v)?,
+            "ttl" => cfg.ttl = parse_opt("ttl", v)?,
+            "max_memory" => cfg.max_memory = parse_opt("max_memory", v)?,
+            "fw" => cfg.fw = parse_opt("fw", v)?,
+            "selftest" => cfg.selftest = v == "1",
+            other => return Err(format!("unknown header key {other}")),
+        }
+    }
+    if !seen_flavour || !seen_policy {
+        return Err("header must name flavour= and policy=".into());
+    }
+    if cfg.ttl == Some(0) {
+        return Err("ttl=0 is not a meaningful configuration".into());
+    }
+    let mut ops = Vec::new();
+    for l in lines {
+        let w: Vec<&str> = l.split_whitespace().collect();
+        let num = |i: usize| -> Result<u64, String> {
+            w.get(i)
+                .ok_or_else(|| format!("missing number in '{l}'"))?
+                .parse::<u64>()
+                .map_err(|_| format!("bad number in '{l}'"))
+        };
+        let op = match (w[0], w.len()) {
+            ("get", 2) => Op::Get(w[1].to_string()),
+            ("insert", 3) => Op::Insert(w[1].to_string(), num(2)? as usize),
+            ("insertm", 3) => Op::InsertM(w[1].to_string(), num(2)? as usize),
+            ("age", 3) => Op::Age(w[1].to_string(), num(2)?),
+            _ => return Err(format!("cannot parse operation '{l}'")),
+        };
+        ops.push(op);
+    }
+    Ok((cfg, ops))
+}
+
+/// Replay a recorded history file against the real engine. `force_selftest` is the command-line
+/// `--selftest-oracle` flag (a file written by a selftest search carries `selftest=1` itself).
+pub fn run_file(path: &str, force_selftest: bool) -> i32 {
+    let text = match std::fs::read_to_string(path) {
+        Ok(t) => t,
+        Err(e) => {
+            eprintln!("cannot read history {path}: {e}");
+            return 2;
+        }
+    };
+    let (mut cfg, ops) = match parse_history(&text) {
+        Ok(x) => x,
+        Err(e) => {
+            eprintln!("cannot parse history {path}: {e}");
+            return 2;
+        }
+    };
+    if force_selftest {
+        cfg.selftest = true;
+    }
+    search::start_watchdog(None);
+    match search::replay(&cfg, &ops) {
+        Ok(None) => {
+            println!("PASS history={path} {} ops={}", cfg.header(), ops.len());
+            0
+        }
+        Ok(Some(v)) => {
+            println!("{}", search::witness_line(&cfg, &v));
+            1
+        }
+        Err(e) => {
+            eprintln!("harness error: {e}");
+            2
+        }
+    }
 }
